@@ -128,6 +128,8 @@ is a machine word modulo `ceil + 2`) and the protocol description. -/
 structure Cfg where
   ceil : Nat
   proto : Proto
+  /-- debug assertions are compiled in (`debug_assert!` statements touching the counter run) -/
+  debug : Bool := false
 
 /-- Some thread holds a shared reference to a handle of thread `u`: `u` must keep that handle
 alive and may only use its handles through `&self` methods until the references are returned. -/
@@ -359,6 +361,14 @@ def microStep (c : Cfg) (s : State) (t : Nat) (ch : Nat) : Option State :=
           if ch = 0 then
             some (doStore s t th o (wrapSub c.ceil pc.old k) ⟨pc.k, norm c.ceil rest pc.old, pc.old⟩)
           else none
+      | .simple (.debugLoad o) :: rest =>
+          if c.debug then
+            if th.coh ≤ ch ∧ ch ≤ s.hist.length then
+              some (doLoad s t th ch o ⟨pc.k, norm c.ceil rest pc.old, pc.old⟩)
+            else none
+          else if ch = 0 then
+            some { s with thr := s.thr.set t { th with pc := some ⟨pc.k, norm c.ceil rest pc.old, pc.old⟩ } }
+          else none
       | .simple (.storeLit v o) :: rest =>
           if ch = 0 then
             some (doStore s t th o v ⟨pc.k, norm c.ceil rest pc.old, pc.old⟩)
@@ -467,6 +477,18 @@ def decrAcquires (p : Proto) : Bool :=
   | [.rmwSub _ o, .branch _ _ thn _ _ _] => o.isAcquire || acqFenceArm thn
   | _ => false
 
+/-- In `decr` nothing touches the counter after the `fetch_sub` (only fences and the returned
+value): once the share is given back the block may be freed by another thread, in any build
+profile (`debug_assert!` included). -/
+def decrNoAccessAfterRelease (p : Proto) : Bool :=
+  match p.decr with
+  | .rmwSub _ _ :: rest => rest.all fun
+      | .branch _ _ thn _ els _ => thn.all Simple.isFence && els.all Simple.isFence
+      | .simple s => s.isFence
+      | .ret _ => true
+      | _ => false
+  | _ => false
+
 /-- `incr` is `old = load(_); while old < bound { CAS(old, old + 1) … }; Overflow`: in particular
 the increment is an atomic read-modify-write. -/
 def incrShape (p : Proto) : Bool :=
@@ -510,6 +532,7 @@ def obligations (p : Proto) (one : Nat) : List (String × Bool) :=
    ("decr_is_rmw", decrShape p),
    ("decr_is_release", decrIsRelease p),
    ("decr_overflow_has_acquire_fence", decrAcquires p),
+   ("no_counter_access_after_release", decrNoAccessAfterRelease p),
    ("incr_is_rmw", incrShape p),
    ("incr_bound_le_ceil", incrBoundOk 10 p),
    ("is_unique_shape", uniqShape p),
